@@ -58,7 +58,9 @@ def check(ctx, src):
     tv = next((c.args[0].id for c in ast.walk(loop.test) if isinstance(c, ast.Call) and dotted(c.func) == "isinstance" and c.args and isinstance(c.args[0], ast.Name)), None)
     ctx.need(tv is not None, "macroexpand: the variable tested by the loop was not recognised")
     rets_in = [n for n in ast.walk(loop) if isinstance(n, ast.Return)]
-    AT = boolfn.Atoms(I="isinstance(obj, (hy.compiler.Result, AST))", K="result_ok")
+    # I: the macro returned compiled code (a Result or a bare AST node); J: the narrower test for a Result only (J implies I)
+    AT = boolfn.Atoms(I="isinstance(obj, (hy.compiler.Result, AST))", K="result_ok", J="isinstance(obj, hy.compiler.Result)")
+    feas_mx = lambda e: (not e["J"]) or e["I"]
     # a returned temporary stands for what was assigned to it
     sites = []
     for r in rets_in:
@@ -70,8 +72,8 @@ def check(ctx, src):
                 sites.append((r, r.value.id))
     r_obj = [n for n, name in sites if name != tv]
     r_tree = [n for n, name in sites if name == tv]
-    v1, c1 = boolfn.equivalent(r_obj, loop, AT, lambda e: e["I"] and e["K"])
-    v2, c2 = boolfn.equivalent(r_tree, loop, AT, lambda e: e["I"] and not e["K"])
+    v1, c1 = boolfn.equivalent(r_obj, loop, AT, lambda e: e["I"] and e["K"], feasible=feas_mx)
+    v2, c2 = boolfn.equivalent(r_tree, loop, AT, lambda e: e["I"] and not e["K"], feasible=feas_mx)
     ok_names = all(isinstance(r.value, ast.Name) for r in rets_in)
     ctx.decide_tt("MX-LOOP", f"{MC}|macroexpand|result", None if (v1 is None or v2 is None) else (v1 and v2 and ok_names),
                f"a compiler Result must be returned only when result_ok, else the tree as expanded so far (the loop variable `{tv}`); found returns of {[norm(r.value) for r in rets_in]}", MC, loop.lineno, detail="obj if result_ok else tree")
